@@ -331,6 +331,10 @@ def x_binop(self, st, op, a, b, node):
             oa, ob = st.obj(a), st.obj(b)
             if oa.kind == "list" and ob.kind == "list" and oa.items is not None and ob.items is not None:
                 return st.alloc(HObj("list", kind="list", items=list(oa.items) + list(ob.items)))
+    if isinstance(op, ast.Mult) and isinstance(a, Ref) and isinstance(b, int) and not isinstance(b, bool):
+        oa = st.obj(a)
+        if oa.kind == "list" and oa.items is not None and 0 <= b <= 64:
+            return st.alloc(HObj("list", kind="list", items=list(oa.items) * b))
     if isinstance(op, (ast.Sub, ast.BitOr, ast.BitAnd)) and isinstance(a, Ref) and isinstance(b, Ref):
         oa, ob = st.obj(a), st.obj(b)
         if oa.kind == "set" and ob.kind == "set" and oa.items is not None and ob.items is not None:
